@@ -339,6 +339,82 @@ def contract_query(case):
     return ("ok", bool(must) and len(must) < len(items))
 
 
+# ------------------------------------------------------------------------------------------------ counting queries
+def gen_counts(tier, seed):
+    """count_distinct(seqid=, biotype=, name=) with every argument False / True / a value; biotype_counts(); describe"""
+    thorough = tier == "thorough"
+    rnd = random.Random(seed + 9)
+    sets = [SET_A, SET_B] + [random_set(rnd, rnd.randint(2, 6)) for _ in range(20 if thorough else 4)]
+    for recs in sets:
+        for cls in CLASSES:
+            yield [cls, recs, "biotype_counts", None]
+            yield [cls, recs, "describe", None]
+            for flags in itertools.product(*[[False, True] + VALUES[k] for k in ("seqid", "biotype", "name")]):
+                yield [cls, recs, "count_distinct", list(flags)]
+
+
+def contract_counts(case):
+    cls, recs, method, flags = case
+    db, items = cached_db(cls, recs)
+    if method == "biotype_counts":
+        want = collections.Counter(it[1]["biotype"] for it in items)
+        try:
+            got = dict(db.biotype_counts())
+        except Exception as e:
+            return ("fail", f"counts/{cls}/biotype_counts/raises {type(e).__name__}", f"{case}: {type(e).__name__}: {e}")
+        if got != dict(want):
+            return ("fail", f"counts/{cls}/biotype_counts/differs", f"records {[proj_full(it) for it in items]} in {cls} db: "
+                                                                   f"biotype_counts() = {got}, the record list has {dict(want)}")
+        return ("ok", len(want) > 1)
+    if method == "describe":
+        try:
+            t = db.describe
+            rows = {str(r[0]): int(r[1]) for r in t.to_list()}
+        except Exception as e:
+            return ("fail", f"counts/{cls}/describe/raises {type(e).__name__}", f"{case}: {type(e).__name__}: {e}")
+        want = {}
+        for col in ("seqid", "biotype"):
+            for k, v in collections.Counter(it[1][col] for it in items).items():
+                want[f"{col}({k!r})"] = v
+        got = {k: v for k, v in rows.items() if not k.startswith("num_rows")}
+        total = sum(v for k, v in rows.items() if k.startswith("num_rows"))
+        if got != want or total != len(items):
+            return ("fail", f"counts/{cls}/describe/differs", f"records {[proj_full(it) for it in items]} in {cls} db: describe "
+                                                             f"= {rows}, the record list has {want} and {len(items)} rows")
+        return ("ok", True)
+    cols = [k for k, f in zip(("seqid", "biotype", "name"), flags) if f is True]
+    cons = {k: f for k, f in zip(("seqid", "biotype", "name"), flags) if isinstance(f, str)}
+    kw = {k: f for k, f in zip(("seqid", "biotype", "name"), flags) if f is not False}
+    try:
+        t = db.count_distinct(**kw)
+    except Exception as e:
+        return ("fail", f"counts/{cls}/count_distinct/raises {type(e).__name__}", f"count_distinct({kw}): {type(e).__name__}: {e}")
+    if not cols:
+        return ("ok", False) if t is None else ("fail", f"counts/{cls}/count_distinct/result-without-a-counted-column", f"count_distinct({kw}) = {t!r}")
+    q = dict.fromkeys(QKEYS)
+    q.update(cons)
+    q["allow_partial"] = False
+    must, may = select(items, q)
+    lo = collections.Counter(tuple(it[1][c] for c in cols) for it in must)
+    hi = lo + collections.Counter(tuple(it[1][c] for c in cols) for it in may)
+    got = collections.Counter()
+    try:
+        header = list(t.header)
+        for row in t.to_list():
+            d = dict(zip(header, row))
+            got[tuple(d[c] for c in cols)] += int(d["count"])
+    except Exception as e:
+        return ("fail", f"counts/{cls}/count_distinct/unreadable-result", f"count_distinct({kw}): {type(e).__name__}: {e}")
+    bad = [k for k in set(got) | set(hi) if not lo.get(k, 0) <= got.get(k, 0) <= hi.get(k, 0)]
+    if bad:
+        pattern = "+".join(f"{k}={'value' if isinstance(v, str) else v}" for k, v in kw.items())
+        kind = "count low" if any(got.get(k, 0) < lo.get(k, 0) for k in bad) else "count high"
+        return ("fail", f"counts/{cls}/count_distinct/{pattern}/{kind}",
+                f"records {[proj_full(it) for it in items]} in {cls} db: count_distinct({kw}) sums to {dict(got)}, a linear "
+                f"scan counts {dict(lo)}" + (f"..{dict(hi)}" if may else ""))
+    return ("ok", len(lo) > 1 or bool(cons))
+
+
 # ------------------------------------------------------------------------------------------------ on_alignment queries
 def gen_on_alignment(tier, seed):
     """get_features_matching(on_alignment=True/False, [seqid], [biotype]) -- the one query method that accepts the
@@ -966,6 +1042,17 @@ BOUNDED = {
                  "(none, gene)",
         "rule": "a record matches on_alignment=v iff its on_alignment flag is v (file-derived records: False); compared "
                 "with the linear scan as a multiset; non-trivial when the scan selects some but not all records",
+    },
+    "counts": {
+        "gen": gen_counts, "contract": contract_counts,
+        "functions": ["SqliteAnnotationDbMixin.count_distinct", "SqliteAnnotationDbMixin.biotype_counts",
+                      "SqliteAnnotationDbMixin.describe"],
+        "bound": "Basic/Gff/Genbank db holding the two fixed record sets and 4 (thorough 20) seeded random sets (file-loaded "
+                 "and user-added rows, so both tables are populated); count_distinct with each of seqid / biotype / name "
+                 "False, True or a value (all 5 x 4 x 3 combinations); biotype_counts(); describe",
+        "rule": "counts summed per distinct value combination over the rows of the returned table == Counter over the "
+                "record list restricted by the value constraints (linear scan); biotype_counts / describe == Counter over "
+                "the record list",
     },
     "query": {
         "gen": gen_query, "contract": contract_query,
